@@ -12,6 +12,8 @@ Require Import Urcu.Base.MachD.
 Require Import Urcu.Lfs.Lfs.
 Require Import Urcu.Lfs.LfsProof.
 Require Import Urcu.Lfs.LfsLin.
+Require Import Urcu.Wfs.WfsPriv.
+Require Import Urcu.Wfs.WfsLin.
 Import ListNotations.
 Local Open Scope N_scope.
 
@@ -58,12 +60,47 @@ Theorem C11_lfstack_linearizable_lifo :
     (forall t : nat, NoDup (pushes (threads t)) /\ ~ In 0 (pushes (threads t))) ->
     (forall (t u : nat) (x : N), t <> u -> In x (pushes (threads t)) -> ~ In x (pushes (threads u))) ->
     forall cs : list choice,
-    exists (a' : ast) (L : list (op sop N)),
-    runl a0 (gtrace cs (init_state threads, [])) = Some (a', L) /\
+    exists (a' : LfsLin.ast) (L : list (op sop N)),
+    LfsLin.runl LfsLin.a0 (LfsLin.gtrace cs (init_state threads, [])) = Some (a', L) /\
     legal sop N (list N) lspec [] L /\
     (forall t : nat,
     tops sop N t L =
-    hcomp sop N t None (gtrace cs (init_state threads, [])) ++ pre sop N (pm sop N (list N) a' t)).
+    hcomp sop N t None (LfsLin.gtrace cs (init_state threads, [])) ++
+    pre sop N (pm sop N (list N) a' t)).
 Proof. exact (@Urcu.Lfs.LfsLin.lfs_linearizable). Qed.
 Print Assumptions C11_lfstack_linearizable_lifo.
+
+(* wfstack: a node's link, once visible in memory or pending in a pusher (program counter at its link store, or the store in its buffer), stays visible or pending with the same target under every step of every thread - so a chain taken by pop_all keeps spelling the same nodes while suspended pushers complete *)
+Theorem C11_wfstack_links_never_lost :
+    forall (c : MachE.choice) (s : st8) (st : list N) (x b : N),
+    Wfs.Inv s st -> lnk s x b -> lnk (fst (MachE.exec sloc sloc_eqb sprog c s)) x b.
+Proof. exact (@Urcu.Wfs.WfsPriv.lnk_mono). Qed.
+Print Assumptions C11_wfstack_links_never_lost.
+
+(* the wfstack invariant holds in the initial state of any programs pushing distinct nodes (non-vacuity of the all-schedules theorems) *)
+Theorem C11_wfstack_initial_state :
+    forall threads : nat -> list Wfs.sop,
+    (forall t : nat,
+    NoDup (Wfs.pushes (threads t)) /\ (forall n : N, In n (Wfs.pushes (threads t)) -> 2 <= n)) ->
+    (forall (t u : nat) (x : N), In x (Wfs.pushes (threads t)) -> In x (Wfs.pushes (threads u)) -> t = u) ->
+    Wfs.Inv (WfsRun.init_state threads) [].
+Proof. exact (@Urcu.Wfs.WfsLin.Inv_initial). Qed.
+Print Assumptions C11_wfstack_initial_state.
+
+(* wfstack, any number of threads, any programs of pushes and pop_all + blocking iteration, every schedule with TSO delays: the history - push answering 'stack was non-empty', pop_all answering with the list of nodes its iteration VISITED - is accepted by the LIFO automaton (linearisation points: the head exchanges); hence pop_all's iteration visits exactly the stack present at its exchange, top first, also past pushers suspended before their link store *)
+Theorem C11_wfstack_linearizable_lifo :
+    forall threads : nat -> list Wfs.sop,
+    (forall t : nat,
+    NoDup (Wfs.pushes (threads t)) /\ (forall n : N, In n (Wfs.pushes (threads t)) -> 2 <= n)) ->
+    (forall (t u : nat) (x : N), In x (Wfs.pushes (threads t)) -> In x (Wfs.pushes (threads u)) -> t = u) ->
+    forall cs : list MachE.choice,
+    exists (a' : ast) (L : list (op wop (list N))),
+    runl a0 (gtrace cs (WfsRun.init_state threads, [], p0)) = Some (a', L) /\
+    legal wop (list N) (list N) wspec [] L /\
+    (forall t : nat,
+    tops wop (list N) t L =
+    hcomp wop (list N) t None (gtrace cs (WfsRun.init_state threads, [], p0)) ++
+    pre wop (list N) (pm wop (list N) (list N) a' t)).
+Proof. exact (@Urcu.Wfs.WfsLin.wfs_linearizable). Qed.
+Print Assumptions C11_wfstack_linearizable_lifo.
 
